@@ -1,7 +1,8 @@
+\* C08 delivery model, quick tier: one publisher x 2 messages, two subscribers that subscribe / pause / resume / unsubscribe
 SPECIFICATION Spec
 CONSTANTS
-  Pubs = {"p1", "p2"}
-  K = 1
+  Pubs = {"p1"}
+  K = 2
   Subs = {"s1", "s2"}
   W = 1
   Parallel = FALSE
